@@ -809,6 +809,28 @@ fn main() {
             }
         });
     }));
+    // `--selftest N`: a small fixed workload without I/O, meant to be run under Miri (undefined behaviour in code the
+    // front end reaches, e.g. the pointer arithmetic of TokenStream) - a smoke test, never a verdict on its own
+    let args: Vec<String> = std::env::args().collect();
+    if args.len() >= 2 && args[1] == "--selftest" {
+        let n: usize = args.get(2).and_then(|s| s.parse().ok()).unwrap_or(10);
+        let cases: [(&str, usize, usize, &str); 10] = [
+            ("a/", 2, 2, "/"), ("if x", 2, 2, "f"), ("0 x1", 1, 2, ""), ("'a", 2, 2, "'"), ("proc main() { x := 1; }", 14, 14, "y := 2; "),
+            ("// c", 4, 4, "\nx"), ("a <= b", 3, 4, ""), ("0x", 2, 2, "1F"), ("type T = int;", 5, 6, "Ty"), ("x\u{e9}y", 1, 3, ""),
+        ];
+        let mut bad = 0;
+        for (text, a, b, rep) in cases.iter().cycle().take(n) {
+            let old = lexer::lex(text);
+            let ch = TextChange { range: *a..*b, text: rep.to_string() };
+            if check_lex_update(text, &old, &ch).is_err() { bad += 1; }
+        }
+        let hist = json!({"text": "type T = array [3] of int;\n// doc\nproc main() {\n  var a: T;\n  a[0] := 1;\n  if (a[0] < 2) { printi(a[0]); } else ;\n}\n",
+                          "steps": [[[63, 63, "a[1] := a[0] + 2;\n  "]], [[27, 34, ""]], [[0, 0, "// top\n"]]]});
+        let r = op_history(&hist);
+        if !r["div"].is_null() || r.get("update_panic").is_some() { bad += 1; }
+        println!("selftest cases={} history_steps={} bad={}", n, r["steps_done"], bad);
+        std::process::exit(if bad == 0 { 0 } else { 1 });
+    }
     let stdin = std::io::stdin();
     let stdout = std::io::stdout();
     let mut out = stdout.lock();
